@@ -108,6 +108,9 @@ class EmuServer:
         if not l.startswith("READY"):
             self.initfail = l.strip()
             self.p.wait()
+            if l.startswith("INITFAIL ERROR"):
+                from .common import EmuRefused
+                raise EmuRefused(l.strip()[9:], tracedir, flags)
             raise InfraError("emu_server did not start: %s" % l)
         while True:
             l = self._rl().rstrip("\n")
